@@ -451,3 +451,8 @@ def run(facts, rep, tier):
     rep.rule("C12-R6", "Request workers run on dedicated threads (std::thread::spawn): they block on the server lock, so they must not occupy the bounded rayon pool that the edit path "
              "needs while it holds the write lock.")
     rule_r6(facts, rep)
+    rep.rule("C12-R7", "= C09-R1 (retry loop): a request handler that loops until a free name is found must draw a new candidate in every iteration, else one unlucky library state makes "
+             "completion / extract requests spin forever under the read lock.")
+    from . import c09
+    from .c06 import _MultiOnly
+    c09.rule_r1(facts, _MultiOnly(rep, ("retry-loop-draws-fresh-candidate", "fresh-candidate")), "C12-R7")
